@@ -343,7 +343,9 @@ func lexComment(l *lexer) stateFn {
 		return lexEOF
 	}
 
-	for unicode.IsSpace(rune(l.input[l.pos+i-1])) {
+	// Trim the blanks in front of the line break; only characters that the header
+	// and the text lexers skip anyway, compared bytewise so that no UTF-8 sequence is split
+	for i > 2 && (l.input[l.pos+i-1] == ' ' || l.input[l.pos+i-1] == '\t' || l.input[l.pos+i-1] == '\r') {
 		i -= 1
 	}
 	l.pos += i
